@@ -194,7 +194,9 @@ def rule_clause(css):
         return f'{css}: additive weights {weights} are not strictly decreasing non-negative integers'
     if isinstance(desc['range'], tuple):
         for entry in desc['range']:
-            if entry != 'auto' and not entry[0] <= entry[1]:
+            if not (isinstance(entry, tuple) and len(entry) == 2):
+                return f'{css}: range holds {entry!r}, which render_value cannot unpack as (min, max)'
+            if not entry[0] <= entry[1]:
                 return f'{css}: range {entry} is not ordered'
     if desc['pad'] is not None and desc['pad'][0] < 0:
         return f'{css}: negative pad length'
